@@ -18,7 +18,7 @@ RULE = ('models generated as trees by the harness (recursive blocks; single and 
         'loaded model is resolved and every user object initialised, replacement values in place afterwards (own-rule value '
         'wins), match-rule processors not re-run. distinct = (tree shape, variant); non-trivial = depth >= 3, an abstract '
         'slot and a replacement present')
-REQUIRED = {'models': 200, 'processor_calls_checked': 5000, 'abstract_slot_calls': 500, 'replacements_checked': 200,
+REQUIRED = {'grammars_with_abstract_first_rule': 50, 'models': 200, 'processor_calls_checked': 5000, 'abstract_slot_calls': 500, 'replacements_checked': 200,
             'falsy_replacements': 30, 'two_file_loads': 40, 'user_class_loads': 40, 'depth3_models': 50,
             'two_language_loads': 30, 'one_callable_for_all_rules_loads': 50}
 
@@ -234,10 +234,22 @@ def one(ctx, i, rep=None):
             return own_replacement(rule, x.name, salt)
         return proc
 
-    mm = metamodel_from_str(GRAMMAR13, classes=classes)
+    # the first rule of the grammar is an abstract rule (i % 5 == 2): the model object sits in no attribute, so the processor
+    # of that abstract rule has no business with it
+    abstract_first = (i % 5 == 2) and not multi_lang
+    unit_calls = []
+    gtext = GRAMMAR13
+    if abstract_first:
+        gtext = "Unit: Model | Lib;\nLib: 'lib' name=ID;\n" + GRAMMAR13
+        ctx.count('grammars_with_abstract_first_rule')
+    mm = metamodel_from_str(gtext, classes=classes)
     mm.register_scope_providers({'*.*': sp.PlainNameImportURI()})
     procs = {'Model': mk('Model'), 'Block': mk('Block'), 'Leaf': mk('Leaf'), 'Ref': mk('Ref'),
              'Item': mk('Item'), 'Val': mk('Val', True), 'Tag': mk('Tag', True)}
+    if abstract_first:
+        def unit_proc(x):
+            unit_calls.append((type(x).__name__, getattr(x, 'name', None)))
+        procs['Unit'] = unit_proc
     shared_callable = (i % 7 == 3) and not multi_lang
     if shared_callable:
         # ONE callable registered for every common rule and for the abstract rule (a generic tracer): an object stored in
@@ -368,6 +380,9 @@ def one(ctx, i, rep=None):
     gt = sum(1 for e in log if e[0] == 'Tag')
     if (gv, gt) != (nval, ntag):
         fail('match-rule processors ran %d/%d times for %d/%d matched values (Val/Tag)' % (gv, gt, nval, ntag))
+        return
+    if unit_calls:
+        fail('the processor of the abstract first rule Unit ran for %r: the model object is not the value of an attribute typed Unit' % (unit_calls[:3],))
         return
     # ---- replacements in place --------------------------------------------------------
     models = [m]
